@@ -373,6 +373,8 @@ class Domain(object):
     def is_none(self, v, state):
         if v.kind == 'none':
             return True
+        if v.kind == 'sym' and isinstance(v.name, tuple) and v.name and v.name[0] == 'exc':
+            return False
         if v.kind in ('true', 'false', 'const', 'obj', 'closure', 'self', 'class', 'func', 'global', 'builtin'):
             return False
         f = state.facts.get(v.name)
@@ -394,6 +396,8 @@ class Domain(object):
             return f[1] if f else None
         if v.kind == 'sym':
             n = v.name
+            if isinstance(n, tuple) and n and n[0] == 'exc':
+                return True
             if isinstance(n, tuple) and n and n[0] in ('isnone', 'notnone'):
                 inner = state.facts.get(n[1])
                 if inner and inner[0] is not None:
@@ -526,7 +530,6 @@ class Domain(object):
                 src = state.extra.get('exc_src', '?')
                 v = sym(('exc', a, src), {'caught:%s' % a, 'exc-from:%s' % src})
                 st = state.set(('L', fr.id, node.info['binds']), v)
-                st.facts[v.name] = (False, True)
                 return [(None, st)]
             return [(None, state)]
         if k == 'with-enter':
@@ -713,6 +716,9 @@ class Domain(object):
         cid = callee.id
         for k in [k for k in st.env if k[1] == cid and k[0] in ('L', 'R', 'RV')]:
             del st.env[k]
+        # handler / finally bookkeeping of the frame that is left
+        for k in [k for k in st.extra if isinstance(k, tuple) and k and k[0] in ('hexc', 'fexc') and k[1][0] == cid]:
+            del st.extra[k]
         if mode == 'value' and node.ast is not None:
             st.env[('R', fr.id, id(node.ast))] = rv._replace(deps=EMPTY) if State.strip_deps and rv.deps else rv
         return self.on_stmt(node, st)
